@@ -892,6 +892,22 @@ def o_sign_history(case):
     g = ecgen.build_generator(spec, cfg, entropy_f=entropy_f)
     d = (seed * 0x9E3779B97F4A7C15 + 12345) % (n - 1) + 1
     Q = c.mul_fast(d, c.G)
+    # a generator handed to a worker process / kept in a copied configuration object: where copying or pickling the object
+    # works at all (it raises on some versions - not judged), the copy signs and verifies like the original
+    import copy as _copy
+    import pickle as _pickle
+    for how, mk in (("copy.copy", _copy.copy), ("copy.deepcopy", _copy.deepcopy), ("pickle", lambda o: _pickle.loads(_pickle.dumps(o)))):
+        try:
+            dup = mk(g)
+        except Exception:      # noqa
+            continue
+        z = int.from_bytes(hashlib.sha256(b"copy %d" % seed).digest(), "big") or 1
+        r0, s0, _k, _R = refecdsa.sign(c, d, z)
+        if r0 and s0:
+            got = dup.sign(d, z)
+            if tuple(got) != (r0, s0) or dup.verify(Q, z, (r0, s0)) is not True:
+                _bad("sign:copied-generator", "%s Generator/%s obtained by %s: sign(d, z) = %r (RFC 6979: (%d, %d)), verify of the valid "
+                     "signature = %r" % (c.name, cfg, how, tuple(got), r0, s0, dup.verify(Q, z, (r0, s0))))
     made, bursts = 0, 0
     boundary = 256
     while boundary <= upto:
